@@ -151,6 +151,13 @@ def run(tier):
         if ka != kd:
             k = known_class(s)
             if k in ("K1-non-ascii", "K2-lone-cr"):
+                # several listed classes may apply to one input: the refinement below is only for inputs
+                # that are in K1/K2 alone
+                stripped = "".join(c for c in s if ord(c) < 128)
+                stripped = re.sub(r"\r(?!\n)", "", stripped)
+                k2 = known_class(stripped)
+                if k2 not in (None, "K1-non-ascii", "K2-lone-cr"): k = k2
+            if k in ("K1-non-ascii", "K2-lone-cr"):
                 # these two classes only change the NUMBER of E110 tokens: everything else must agree
                 drop = lambda ks: [x for x in ks if not (x[0] == "Error" and x[1] == "110")]
                 if drop(ka) != drop(kd): k = None
